@@ -1,9 +1,82 @@
+"""Texts for MANIFEST.json (per claimed property).  `thm` = what the Coq theorems in
+coq/Properties/<id>.v state (kept in step with those files); `tie` = what the run-time
+part (correspondence + direct oracle on /repo) does."""
+
+TB = ("Trusted: Coq 8.16.1 kernel (full .vo build, vm_compute, no native_compute); extraction with ExtrOcamlBasic only; "
+      "ocaml/driver.ml and harness/ (sampling correspondence between the hand-written models and /repo); "
+      "Print Assumptions of every property theorem is recorded in the evidence (closed unless stated). ")
+
 META = {
+ "C01": dict(
+  thm="Theorems (coq/Properties/C01.v): the encoder models followed by the reference decoders / parser models return the image of the stream's value for every well-formed tree (see the file for which formats are fully proved and which statements are `_partial`).",
+  tie="Run: generated well-formed streams (all scalar kinds, width boundaries, float bit patterns, byte strings, announced/unknown lengths, extended events) x encoder options are encoded and parsed back by /repo; the extracted models must produce the same bytes and events (correspondence) and the decoded value must equal the format image of the encoded value (direct oracle).",
+  note="Floats in JSON go through strconv, an oracle of the model (Go's text is passed per case). ",
+  technique="Coq proof (encoder/decoder round-trip by induction over trees) + extracted-model correspondence + direct value oracle"),
+ "C02": dict(
+  thm="Theorems (coq/Properties/C02.v): on the parser models the events and the accept/reject verdict of any two chunkings of the same bytes agree, and Write*+end agrees with the whole-buffer Parse (see the file for formats covered).",
+  tie="Run: every subset of cut positions of short documents (<= 9 bytes quick, <= 12 thorough; valid, truncated and mutated ones), as Write*+end and through a scripted reader, plus random chunkings (single bytes, empty writes) of longer documents, on /repo and on the extracted models; any run that differs from the whole-buffer run is a violation.",
+  note="",
+  technique="Coq proof (split lemmas for the token collectors, induction over chunk lists) + exhaustive cut-set enumeration on /repo and model"),
+ "C03": dict(
+  thm="Theorems (coq/Properties/C03.v): the parser models return Ok (events, verdict) - never Panic, never OutOfFuel (the fuel bound is linear in the input) - for all byte strings, chunkings and visitor-failure indices; retained state is bounded by the bytes received; input ending inside a value is an error (see the file for formats covered).",
+  tie="Run: random bytes, bit-flips, truncations, unknown markers and length fields up to 2^63-1/2^64-1 in every chunking through Parse, ParseString, Write, ParseReader and the pull decoders of /repo under a 3 s deadline, recover and ulimit -v; outcome must equal the model's, a reference-truncated input must not be accepted.",
+  note="One recorded finding (UBJSON typed containers of zero-size elements, known-findings.txt). ",
+  technique="Coq proof (reachable-state invariant excluding every panic site, linear fuel bound) + guarded differential runs"),
+ "C04": dict(
+  thm="Theorems (coq/Properties/C04.v): see the file; the JSON lexing functions of the model (unquote, number classification/conversion) against their RFC 8259 meaning.",
+  tie="Run: generated RFC 8259 texts (all escapes, surrogate pairs and lone surrogates followed by any UTF-8, 64-bit boundary integers, fractions/exponents, whitespace) and grammar-violating token sequences: /repo's parser events vs Go's encoding/json (UseNumber) as independent reference, and vs the extracted parser model.",
+  note="The reference decoder for JSON lives on the Go side (encoding/json), not in Coq. ",
+  technique="Coq proof (lexing lemmas) + reference-decoder oracle + extracted-model correspondence"),
+ "C05": dict(
+  thm="Theorems (coq/Properties/C05.v): whenever the RFC 7049 reference decoder (Cbor/Spec.v) accepts an item of the subset, the parser model accepts it and its events form a well-formed stream with exactly that value; unsupported items are refused (see the file for what is proved and what is `_partial`).",
+  tie="Run: generated items (every value in every argument width, full negative range, zero-length strings/containers, definite/indefinite nesting) and unsupported items: /repo's events vs the extracted reference decoder and vs the extracted parser model.",
+  note="",
+  technique="Coq proof (simulation of the reference decoder by the parser state machine) + reference-decoder oracle + correspondence"),
+ "C06": dict(
+  thm="Theorems (coq/Properties/C06.v): see the file.",
+  tie="Run: generated draft-12 values (every marker and length marker, typed containers of every element type incl. containers, no-ops, empty containers) through /repo's parser vs the extracted reference decoder (Ubjson/Spec.v) and vs the extracted parser model.",
+  note="",
+  technique="Coq proof + reference-decoder oracle + correspondence"),
+ "C07": dict(
+  thm="Theorems (coq/Properties/C07.v): for every well-formed tree the encoder model's output is read back by the independent reference decoder as the image of the tree's value; JSON text predicates (no control characters, no raw <>& with HTML escaping, radix point, non-finite floats refused or null) on the model's output.",
+  tie="Run: generated well-formed streams incl. all 29 typed events x options: bytes written by /repo must equal the model's (per Write call) and decode, by the extracted reference decoders (CBOR, UBJSON) or encoding/json (JSON), to the image of the stream's value; the JSON text predicates are checked on the bytes.",
+  note="",
+  technique="Coq proof (induction over trees against the reference decoders) + reference-decoder oracle + correspondence"),
+ "C08": dict(
+  thm="Theorems (coq/Properties/C08.v): composition of the parser and encoder theorems (see the file).",
+  tie="Run: all nine (source, target) pairs on generated valid source documents and streams of container documents in random chunkings: /repo's output bytes vs the composed models, and target value (reference decoder) vs source value (reference decoder) under the target's representation rules.",
+  note="",
+  technique="Coq proof by composition (C05/C06/C04 with C07 and C02) + reference-decoder oracle on both ends + correspondence"),
+ "C09": dict(
+  thm="Theorems (coq/Properties/C09.v): the adapters' expansion of every well-typed extended event, the events of accepted parser inputs and of folded Go values satisfy the contract monitor `contract_ok` (see the file for which producers are proved).",
+  tie="Run: the extracted monitor (wf_tree over parse_tree) on the events /repo's parsers deliver for every accepted input, on Fold of generated (type, value) pairs, and on the adapters for all extended events.",
+  note="",
+  technique="Coq proof (contract monitor as executable predicate; producers' outputs satisfy it) + monitor run on /repo's events"),
+ "C10": dict(
+  thm="Theorems (coq/Properties/C10.v): a wrapped plain visitor receives exactly `expand e`; encoder models end in the same state for an extended event and for its expansion (see the file).",
+  tie="Run: each extended event with generated contents inside generated contexts, followed by further events, through the three encoders of /repo both as extended call and as expansion: same decoded values, same stack depth, same success; adapters vs `expand`; unfolder targets unfolded both ways.",
+  note="One recorded finding (UBJSON typed uint arrays needing 'H'). ",
+  technique="Coq proof (adapter = expansion; state equality) + differential runs extended vs expanded"),
+ "C16": dict(
+  thm="Theorems (coq/Properties/C16.v): in the encoder models a failed write is returned by the call that made it (if every call returned nil the failing write was never attempted); adapters deliver nothing after a visitor error (see the file for components covered).",
+  tie="Run (fault enumeration): writers/visitors failing from a generated index on, for encoders, parsers, adapters and Fold of /repo: an error must be returned no later than the last event, be the injected error itself, and nothing may be delivered after it; outcome must equal the model's.",
+  note="",
+  technique="Coq proof (write/visitor-error propagation invariant by induction over call sequences) + fault injection on /repo"),
+ "C17": dict(
+  thm="Theorems (coq/Properties/C17.v): after a complete well-formed document the encoder models' nesting stacks are what they were before (see the file for components covered).",
+  tie="Run: histories of complete documents on one reused /repo instance (parsers in Parse and Write mode, encoders, transcoding chains, iterator, unfolder) followed by a probe, compared with a fresh instance and with the model; stack depths read through the verif hooks must be idle.",
+  note="",
+  technique="Coq proof (stack discipline by induction over trees) + reuse-vs-fresh differential runs with depth hooks"),
+ "C18": dict(
+  thm="Theorems (coq/Properties/C18.v): see the file.",
+  tie="Run: streams of k generated values (and truncated ones) through /repo's pull decoders over byte slices and scripted readers (read sizes 1..bufsize varying per call, data with or before io.EOF, buffer sizes 1..64): each of the first k Next calls must deliver exactly the next value, then io.EOF; a stream ending inside a value must not end in io.EOF; outcome must equal the decoder model's.",
+  note="",
+  technique="Coq proof + scripted-reader differential runs"),
  "C20": dict(
-  text="Coq theorems over all capacities and all key histories: every get of the modelled cache returns exactly the requested bytes in fresh memory, never panics, and refines an abstract LRU list (C20_cache_transparent, C20_fresh, C20_bounded). The model is tied to gotype/symbols.go by running the extracted model and the real cache (hook) on the same generated histories and comparing returned strings, cache order and index size after overwriting every key buffer.",
-  design_ref="DESIGN.md 6 C20",
-  note="Trusted: Coq kernel, extraction (ExtrOcamlBasic), the sampling correspondence (Go map = association list, ring = list). No axioms (Print Assumptions: closed).",
+  thm="Coq theorems over all capacities and all key histories: every get of the modelled cache returns exactly the requested bytes in fresh memory, never panics, and refines an abstract LRU list (C20_cache_transparent, C20_fresh, C20_bounded).",
+  tie="The model is tied to gotype/symbols.go by running the extracted model and the real cache (hook) on the same generated histories and comparing returned strings, cache order and index size after overwriting every key buffer.",
+  note="Go map = association list, ring = list. ",
   technique="Coq proof (invariant + refinement to abstract LRU by induction over key histories) + extracted-model correspondence"),
 }
-_P = "check for this property is still under construction in this round (model/proofs not yet built); not a claim that the technique cannot apply"
+_P = "check for this property is still under construction (model/harness not yet built); not a claim that the technique cannot apply"
 PENDING = {("C%02d" % i): _P for i in range(1, 21)}
